@@ -1254,6 +1254,28 @@ func (c *Ctx) scanCycleGuard(d CycleGuardDirective) ([]*Obligation, string) {
 	sort.Strings(names)
 	var out []*Obligation
 	nrec, nguard := 0, 0
+	// when Method names one function F (a plain function, or a method given with its receiver as
+	// in "(*Zlisp).Compare"), the recursion is F -> helper -> F: the helpers F calls directly
+	target := c.funcs[d.Method]
+	if target == nil {
+		for _, n := range names {
+			if f := c.funcs[n]; f.Name() == d.Method && f.Signature.Recv() == nil && f.Pkg == c.pkg {
+				target = f
+			}
+		}
+	}
+	helpers := map[*ssa.Function]bool{}
+	if target != nil && target.Blocks != nil {
+		for _, b := range target.Blocks {
+			for _, in := range b.Instrs {
+				if ci, ok := in.(ssa.CallInstruction); ok {
+					if f := ci.Common().StaticCallee(); f != nil {
+						helpers[f] = true
+					}
+				}
+			}
+		}
+	}
 	for _, name := range names {
 		fn := c.funcs[name]
 		if fn.Blocks == nil {
@@ -1276,7 +1298,7 @@ func (c *Ctx) scanCycleGuard(d CycleGuardDirective) ([]*Obligation, string) {
 					rec = append(rec, in)
 				}
 				if f := cc.StaticCallee(); f != nil {
-					if f.Name() == d.Method && f.Signature.Recv() == nil && f.Pkg == c.pkg {
+					if target != nil && f == target && helpers[fn] {
 						rec = append(rec, in)
 					}
 					switch f.RelString(c.tpkg) {
